@@ -132,8 +132,18 @@ def conclude(ctx, t0, out_dir=None, quiet=False, write=True,
     """Finish all rules, write evidence, print verdict lines, return exit
     code."""
     out_dir = out_dir or os.path.join(VERIF, 'evidence')
+    errs = list(getattr(ctx, 'analysis_errors', []) or [])
     for r in ctx.rules:
-        r.finish()
+        try:
+            r.finish()
+        except AnalysisError as e:
+            # an aborted stage leaves rules below their floor: only a
+            # problem of its own when nothing else explains it
+            if not errs:
+                raise
+            errs.append(e)
+    for e in errs:
+        print('ANALYSIS-ERROR property=%s %s' % (ctx.prop, e))
     known = [k for k in load_known() if k.get('status') == 'known']
     kmap = {'%s|%s|%s' % (k['property'], k['rule'], k['construct']): k
             for k in known}
